@@ -1,6 +1,7 @@
 """C04 -- spherematch returns exactly the pairs closer than the match length."""
 
-from .spherelib import check_cell_agree, check_rot_agree, check_dedup_wrap, check_spherematch
+from .spherelib import check_cell_agree, check_rot_agree, check_dedup_wrap, check_spherematch, check_seam
+from .c18 import check_gcirc
 
 META = {
     'property': 'C04',
@@ -16,8 +17,8 @@ META = {
         'outputs are indexed by it; C04.MAXMATCH-SIB - the counting and the filling loop of the greedy selection have identical tests '
         'and counter updates, visit pairs in distance order and count accepted pairs only; C04.DEDUP-WRAP - a point is entered at most '
         'once per cell, out-of-range cell numbers wrap around the RA circle and the margin loops of getbounds can step to -1 / nRa so '
-        'that they do. NOT decided: completeness of the spatial hash near poles and chunk edges, maximality of the greedy selection.'),
-    'floors': {'C04.CELL-AGREE': 2, 'C04.ROT-AGREE': 2, 'C04.MARGIN': 2, 'C04.ALIGN': 2, 'C04.SORTED': 4, 'C04.MAXMATCH-SIB': 4, 'C04.DEDUP-WRAP': 6},
+        'that they do. C04.SEAM - at least one of the two cooperating guards that keep the RA 0/360 seam away from the cells is present; C04.GCIRC - the separation is the haversine great-circle formula (shared with C18). NOT decided: completeness of the spatial hash near poles and chunk edges, maximality of the greedy selection.'),
+    'floors': {'C04.CELL-AGREE': 2, 'C04.ROT-AGREE': 2, 'C04.MARGIN': 2, 'C04.ALIGN': 2, 'C04.SORTED': 4, 'C04.MAXMATCH-SIB': 4, 'C04.DEDUP-WRAP': 6, 'C04.SEAM': 1, 'C04.GCIRC': 2},
 }
 
 
@@ -26,4 +27,18 @@ def run(ctx):
     n = check_rot_agree(ctx, ctx.repo, 'C04.ROT-AGREE')
     ctx.need(n >= 2, 'fewer RA-rotated call sites than confirmed by hand')
     check_dedup_wrap(ctx, ctx.repo, 'C04.DEDUP-WRAP')
+    check_seam(ctx, ctx.repo, 'C04.SEAM')
+    sub = type(ctx)(ctx.prop, ctx.repo, ctx.tier)
+    check_gcirc(sub, ctx.repo)
+    for o in sub.obligations:
+        if o['rule'] == 'C18.HAVERSINE':
+            o['rule'] = 'C04.GCIRC'
+            ctx.obligations.append(o)
+            ctx.rule_counts['C04.GCIRC'] = ctx.rule_counts.get('C04.GCIRC', 0) + 1
+    for v in sub.violations:
+        if v.rule == 'C18.HAVERSINE':
+            v.rule = 'C04.GCIRC'
+            v.prop = 'C04'
+            ctx.violations.append(v)
+    ctx.functions.update(sub.functions)
     check_spherematch(ctx, ctx.repo)
